@@ -30,13 +30,13 @@ UNIT = dict(
         # these are decided on the token stream: the guard is never bound to a name, the handler is called on the clone)
         dict(id="C13.structure.changeable_get_clones_out_of_a_temporary_guard", file=CH, impl="impl<T> Changeable<T> where T: Clone + Send,", count_in_fn="get",
              pattern="self.0.read()", expect=1, why="get() returns a clone; the read guard is a temporary dropped before get() returns"),
-        dict(id="C13.structure.changeable_get_binds_no_guard", file=CH, impl="impl<T> Changeable<T> where T: Clone + Send,", count_in_fn="get", pattern="let", expect=0,
+        dict(id="C13+C15.structure.changeable_get_binds_no_guard", file=CH, impl="impl<T> Changeable<T> where T: Clone + Send,", count_in_fn="get", pattern="let", expect=0,
              why="no lock guard outlives the expression that clones the value"),
-        dict(id="C13.structure.handler_is_called_on_the_clone_with_no_lock_held", file=CH, impl="impl<T, U> ChangeableFn<T, U> where T: Send, U: Send,", count_in_fn="call",
+        dict(id="C13+C15.structure.handler_is_called_on_the_clone_with_no_lock_held", file=CH, impl="impl<T, U> ChangeableFn<T, U> where T: Send, U: Send,", count_in_fn="call",
              pattern="(self.0.get())(data)", expect=1, why="the handler runs after get() has returned its clone: replacing the handler from inside the handler cannot deadlock, and the invocation in progress keeps the old one"),
-        dict(id="C13.structure.handler_call_takes_no_lock_itself", file=CH, impl="impl<T, U> ChangeableFn<T, U> where T: Send, U: Send,", count_in_fn="call", token_regex="read|write|lock", expect=0,
+        dict(id="C13+C15.structure.handler_call_takes_no_lock_itself", file=CH, impl="impl<T, U> ChangeableFn<T, U> where T: Send, U: Send,", count_in_fn="call", token_regex="read|write|lock", expect=0,
              why="see above"),
-        dict(id="C13.structure.changeable_replace_guard_is_a_temporary", file=CH, impl="impl<T> Changeable<T> where T: Clone + Send,", count_in_fn="replace", pattern="let", expect=0,
+        dict(id="C13+C15.structure.changeable_replace_guard_is_a_temporary", file=CH, impl="impl<T> Changeable<T> where T: Clone + Send,", count_in_fn="replace", pattern="let", expect=0,
              why="the write guard is dropped at the end of the assignment"),
     ],
 )
